@@ -169,7 +169,7 @@ pub fn gen_late_data_scenario(r: &mut Rng, seed: u64) -> Scenario {
         add(2 + k, b, "slow-seeder", &mut pdesc);
     }
     let desc = json!({"seed": seed, "family": "late-data-after-reassignment", "piece_length": piece_len, "pieces": n, "target_piece": target, "peers": pdesc});
-    Scenario { cfg: SimCfg { torrent, peers, tracker: vec![], failpoints: None, max_virtual_ms: 60_000, stop_on_extract: true, linger_ms: 100, disk_on: disk_never, seed, driver: None }, desc }
+    Scenario { cfg: SimCfg { torrent, peers, tracker: vec![], failpoints: None, max_virtual_ms: 60_000, stop_on_extract: true, linger_ms: 100, disk_on: disk_never, seed, tracker_fn: None, driver: None }, desc }
 }
 
 pub fn gen_scenario(r: &mut Rng, seed: u64) -> Scenario {
@@ -199,7 +199,7 @@ pub fn gen_scenario(r: &mut Rng, seed: u64) -> Scenario {
     }
     let failpoints = if r.chance(2, 3) { Some(r.next()) } else { None };
     let desc = json!({"seed": seed, "piece_length": torrent.piece_len, "pieces": n, "failpoints": failpoints.is_some(), "peers": pdesc});
-    Scenario { cfg: SimCfg { torrent, peers, tracker: vec![], failpoints, max_virtual_ms: 90_000, stop_on_extract: true, linger_ms: 100, disk_on: disk_never, seed, driver: None }, desc }
+    Scenario { cfg: SimCfg { torrent, peers, tracker: vec![], failpoints, max_virtual_ms: 90_000, stop_on_extract: true, linger_ms: 100, disk_on: disk_never, seed, tracker_fn: None, driver: None }, desc }
 }
 
 pub fn witness_trace(o: &Outcome, at_seq: u64) -> Vec<String> {
